@@ -186,7 +186,19 @@ func vpH_c13_steps() {
 	}
 	var doc any
 	noSteps := false
-	switch vpInt(0, 5) {
+	envBad := false
+	switch vpInt(0, 6) {
+	case 6: // a mapping whose env block is malformed (a list): the parse may reject the document, but if it
+		// returns a usable result the steps are all there and every fallback is reported
+		if seq == nil {
+			seq = []any{}
+		}
+		envBad = true
+		if vpBool() {
+			doc = vpMapOf("env", []any{"A=1"}, "steps", seq)
+		} else {
+			doc = vpMapOf("steps", seq, "env", vpMapOf("A", []any{"x"}))
+		}
 	case 4: // a scalar document
 		doc = vpStrUpTo(2, "a-z")
 		want, noSteps = nil, false
@@ -220,7 +232,7 @@ func vpH_c13_steps() {
 		}
 		return
 	}
-	if !vpHasHard(want) {
+	if !vpHasHard(want) && !envBad {
 		vpAssert(usable, "malformed or unrecognised steps never abort the parse")
 	}
 	if !usable {
